@@ -1,0 +1,22 @@
+//go:build verif
+
+package flv
+
+import "sync/atomic"
+
+var verifSched atomic.Value // func(name string, obj interface{})
+
+// VerifSetSched installs (or, with nil, removes) the schedule-point callback
+// (build tag verif only).
+func VerifSetSched(f func(name string, obj interface{})) {
+	if f == nil {
+		f = func(string, interface{}) {}
+	}
+	verifSched.Store(f)
+}
+
+func verifPoint(name string, obj interface{}) {
+	if f, ok := verifSched.Load().(func(string, interface{})); ok {
+		f(name, obj)
+	}
+}
